@@ -54,7 +54,7 @@ def classify(msg):
 
 
 def check(run):
-  timeout = 240 if run.tier == 'quick' else 900
+  timeout = 600 if run.tier == 'quick' else 1800
   cfgs = configs(run.tier)
   run.functions += ['training.federated_experiment.run_federated_experiment', 'training.checkpoint.save_checkpoint/load_latest_checkpoint/_get_checkpoint_paths',
                     'core.serialization.save_state/load_state']
